@@ -267,8 +267,44 @@ func (r aResult) RowsAffected() (int64, error) { return r.affected, nil }
 
 type aConn struct{ d *aDB }
 
+// Prepare: only the server-variable query the insert executor sends is supported; it is
+// answered the way go-sql-driver's text protocol does (two columns, values as []byte,
+// Next fills as many cells as dest has).
 func (c *aConn) Prepare(q string) (driver.Stmt, error) {
+	c.d.journal = append(c.d.journal, q)
+	if strings.HasPrefix(strings.ToUpper(strings.TrimSpace(q)), "SHOW VARIABLES LIKE 'AUTO_INCREMENT_INCREMENT'") {
+		return aShowStmt{}, nil
+	}
 	return nil, errors.New("adb: prepare not supported")
+}
+
+type aShowStmt struct{}
+
+func (aShowStmt) Close() error  { return nil }
+func (aShowStmt) NumInput() int { return 0 }
+func (aShowStmt) Exec([]driver.Value) (driver.Result, error) {
+	return nil, errors.New("adb: exec of SHOW")
+}
+func (aShowStmt) Query([]driver.Value) (driver.Rows, error) {
+	return &aShowRows{}, nil
+}
+
+type aShowRows struct{ done bool }
+
+func (r *aShowRows) Columns() []string { return []string{"Variable_name", "Value"} }
+func (r *aShowRows) Close() error      { return nil }
+func (r *aShowRows) Next(dest []driver.Value) error {
+	if r.done {
+		return io.EOF
+	}
+	r.done = true
+	row := []driver.Value{[]byte("auto_increment_increment"), []byte("1")}
+	for i := range dest {
+		if i < len(row) {
+			dest[i] = row[i]
+		}
+	}
+	return nil
 }
 func (c *aConn) Close() error              { return nil }
 func (c *aConn) Begin() (driver.Tx, error) { c.d.txBegins++; return aTx{c.d}, nil }
